@@ -558,7 +558,60 @@ def s5(chk):
                 return z3.BoolVal(ok)
             chk.prove_paths(f"handle_implicit_self_arg[struct-params={k},method-params={m}]:inherited-keep-0..k-1/\\own-move-to-k+j/\\indices-dense-and-distinct/\\self==struct[own-params-in-order]", e.explore(t), post,
                             func=f"{FC}:handle_implicit_self_arg", replay=(lambda m__: {"script": REPLAY_METHOD, "input": {}}) if (k, m) in ((2, 1), (1, 2)) else None)
+    # own const parameters whose TYPE mentions an earlier own parameter (`def pick[U, x: U](self)`): the
+    # reference inside the type moves with the parameter it refers to
+    for k in (1, 2, 3):
+        def t_dep(it, k=k):
+            kk = K(e, it)
+            inherited = [kk.call(kk.TP, i, f"S{i}", True, True) for i in range(k)]
+            own = {"U": kk.call(kk.TP, 0, "U", True, True), "x": kk.call(kk.CP, 1, "x", kk.tv(0, "U")), "V": kk.call(kk.TP, 2, "V", True, True),
+                   "y": kk.call(kk.CP, 3, "y", kk.call(kk.Tup, [kk.tv(2, "V"), kk.tv(0, "U")])), "n": kk.call(kk.CP, 4, "n", kk.nat())}
+            defn = SObj(ClassVal("TypeDef", builtin=True), {"params": inherited, "name": "Box"})
+            defn.fields["check_instantiate"] = Builtin("check_instantiate", lambda args, loc=None: ("SELF-TY", list(args)))
+            ctx = SObj(ClassVal("TypeParsingCtx", builtin=True), {"param_var_mapping": own, "self_ty": None})
+            arg = SObj(ClassVal("arg", builtin=True), {"arg": "self", "annotation": None})
+            it.call(it.lookup_global(m_, "handle_implicit_self_arg"), [arg, defn, ctx], {})
+            want = {"U": kk.call(kk.TP, k, "U", True, True), "x": kk.call(kk.CP, k + 1, "x", kk.tv(k, "U")), "V": kk.call(kk.TP, k + 2, "V", True, True),
+                    "y": kk.call(kk.CP, k + 3, "y", kk.call(kk.Tup, [kk.tv(k + 2, "V"), kk.tv(k, "U")])), "n": kk.call(kk.CP, k + 4, "n", kk.nat())}
+            return own, want
+        chk.prove_paths(f"handle_implicit_self_arg[struct-params={k},method-params=U,x:U,V,y:(V,U),n:nat]:references-inside-the-types-of-own-const-parameters-move-with-the-parameters-they-refer-to", e.explore(t_dep),
+                        lambda p: z3.BoolVal(p.kind == "return" and all(same(p.value[0][n_], p.value[1][n_]) for n_ in p.value[1])),
+                        func=f"{FC}:handle_implicit_self_arg", replay=lambda m__: {"script": REPLAY_METHOD_DEP, "input": {}})
     chk.use_engine(e)
+
+
+REPLAY_METHOD_DEP = r'''
+import guppy_plainbool
+import tempfile, importlib.util, os, sys, shutil
+from guppylang_internals.error import GuppyError
+src = """from guppylang import guppy
+from guppylang.std.builtins import nat, result
+@guppy.struct
+class Box[S: (Copy, Drop)]:
+    v: S
+    @guppy
+    def pick[U: (Copy, Drop), x: U](self) -> U:
+        return x
+@guppy
+def free_pick[S: (Copy, Drop), U: (Copy, Drop), x: U](b: Box[S]) -> U:
+    return x
+@guppy
+def main() -> None:
+    result("method", Box(1.5).pick[float, nat, 7]())
+    result("free", free_pick[float, nat, 7](Box(1.5)))
+"""
+d = tempfile.mkdtemp(dir=os.environ.get("TMPDIR", "/var/tmp")); fn = os.path.join(d, "replay_c13d.py"); open(fn, "w").write(src)
+spec = importlib.util.spec_from_file_location("replay_c13d", fn); m = importlib.util.module_from_spec(spec); sys.modules["replay_c13d"] = m
+spec.loader.exec_module(m)
+try:
+    got = [list(x) for x in list(m.main.emulator(n_qubits=1).run().results)[0].entries]
+    out = {"violates": got != [["method", 7], ["free", 7]], "observed": got}
+except GuppyError as ex:
+    out = {"violates": True, "observed": "rejected: " + type(ex.error).__name__}
+shutil.rmtree(d, ignore_errors=True)
+out["required"] = "the method with its own dependent parameter behaves like the free function with the same parameters"
+print(json.dumps(out))
+'''
 
 
 def s6(chk):
